@@ -54,11 +54,13 @@ def resolve_function(c):
   return obj
 
 
-def run_case(c, fn, kwargs, prop, time_limit=10):
+def run_case(c, fn, kwargs, prop, time_limit=10, extra_env=None):
   """Calls the real function; returns (violated: bool|None, detail dict). None = precondition false / not evaluable."""
   env = dict(kwargs)
+  if extra_env:
+    env.update(extra_env)
   try:
-    for cl in c.requires:
+    for cl in c.requires + getattr(c, "ghost_requires", []):
       if not concrete.eval_clause(cl.text, env):
         return None, dict(reason="precondition false")
   except Exception as e:
@@ -102,7 +104,7 @@ def run_case(c, fn, kwargs, prop, time_limit=10):
     if cond:
       return True, dict(result=repr(result)[:300], violated=f"returned normally although ({c.raises[exc].text})")
   env["result"] = result
-  for cl in c.ensures:
+  for cl in c.ensures + getattr(c, "ghost_ensures", []):
     if not cl.serves(prop):
       continue
     try:
@@ -116,8 +118,52 @@ def run_case(c, fn, kwargs, prop, time_limit=10):
   return False, dict(result=repr(result)[:300])
 
 
+def _model_value(name, o, m):
+  """Rebuilds the value recorded under `name` (scalar, optional, tuple of those) from the model; None if absent."""
+  inp = o["inputs"]
+  if name in inp:
+    v = m.get(inp[name])
+    return 0 if v is None else v
+  if f"{name}?isnone" in inp:
+    isn = m.get(inp[f"{name}?isnone"], True)
+    if isn is None:
+      isn = True
+    return None if isn else _model_value(f"{name}?val", o, m)
+  idx = sorted({int(k[len(name) + 1:].split("]")[0]) for k in inp if k.startswith(name + "[") and
+                k[len(name) + 1:].split("]")[0].isdigit()})
+  if idx:
+    return tuple(_model_value(f"{name}[{i}]", o, m) for i in idx)
+  return "<absent>"
+
+
+def model_self_fields(c, o, r):
+  m = r.get("model") or {}
+  out = {}
+  for fname in c.self_fields:
+    v = _model_value(f"self.{fname}", o, m)
+    out["self_" + fname] = 0 if v == "<absent>" else v
+  return out
+
+
+def model_ghost(c, o, r):
+  m = r.get("model") or {}
+  return {g: (0 if _model_value("ghost:" + g, o, m) == "<absent>" else _model_value("ghost:" + g, o, m))
+          for g in c.ghost_params}
+
+
 def model_kwargs(c, o, r):
   """Projects the model onto the function's parameters (scalars / optional scalars / tuples of scalars only)."""
+  m = r.get("model") or {}
+  kw = {}
+  for name, t in c.params.items():
+    v = _model_value(name, o, m)
+    if v == "<absent>":
+      return None
+    kw[name] = v
+  return kw
+
+
+def _model_kwargs_old(c, o, r):
   m = r.get("model") or {}
   kw = {}
   for name, t in c.params.items():
@@ -210,6 +256,26 @@ def make(prop, o, r, why, tier):
             out["reproduced"] = True
             out["replay"] = dict(input={k: _j(x) for k, x in found[0].items()}, violated=True, detail=found[1],
                                  via="neighbour search")
+      elif c.replay_self:
+        import importlib
+        mod = importlib.import_module(c.relpath[:-3].replace("/", "."))
+        ns = dict(vars(mod))
+        sf = model_self_fields(c, o, r) if r["status"] == "sat" else {}
+        ns.update(sf)
+        try:
+          obj = eval(c.replay_self, ns)
+          meth = getattr(obj, c.qual.split(".")[-1])
+          kw = model_kwargs(c, o, r) if r["status"] == "sat" else None
+          if kw is not None:
+            extra = dict(model_ghost(c, o, r))
+            extra["self"] = obj
+            v, d = run_case(c, meth, kw, prop, extra_env=extra)
+            out["replay"] = dict(input={k: _j(x) for k, x in kw.items()}, self={k: _j(x) for k, x in sf.items()},
+                                 ghost={k: _j(x) for k, x in model_ghost(c, o, r).items()}, violated=v, detail=d)
+            if v:
+              out["reproduced"] = True
+        except Exception as e:  # noqa: BLE001
+          out["replay_note"] = f"could not build self for the replay: {e!r}"
       else:
         out["replay_note"] = "method of a stateful class: no generic constructor; model reported without replay"
     except Exception as e:
@@ -278,6 +344,16 @@ def rerun(path):
     return 1
   fn = resolve_function(c)
   kw = {k: _unj(v) for k, v in d["replay"]["input"].items()}
-  v, det = run_case(c, fn, kw, prop)
+  extra = None
+  if d["replay"].get("self") is not None and c.replay_self:
+    import importlib
+    mod = importlib.import_module(c.relpath[:-3].replace("/", "."))
+    ns = dict(vars(mod))
+    ns.update({k: _unj(v) for k, v in d["replay"]["self"].items()})
+    obj = eval(c.replay_self, ns)
+    fn = getattr(obj, c.qual.split(".")[-1])
+    extra = {k: _unj(v) for k, v in (d["replay"].get("ghost") or {}).items()}
+    extra["self"] = obj
+  v, det = run_case(c, fn, kw, prop, extra_env=extra)
   print(f"replay {d['function']} input={kw} -> violated={v} {det}")
   return 1 if v else 0
